@@ -2,7 +2,18 @@
 #ifndef CVS_COLVARVALUE_SYM_H
 #define CVS_COLVARVALUE_SYM_H
 #include <cvm_stub.h>
+#ifdef CVS_CVV_TYPES
+// placeholder payload of the non-scalar value types (branches for them compile, contracts require the scalar type)
+struct cvs_nonscalar { int unused_; cvs_nonscalar &operator+=(cvs_nonscalar const &) { return *this; } };
+inline cvs_nonscalar operator*(cvm::real const &, cvs_nonscalar const &b) { return b; }
+#endif
 struct colvarvalue {
+#ifdef CVS_CVV_TYPES
+  enum Type
+#include "cvv_Type.body.inc"
+  ;
+  cvs_nonscalar rvector_value, quaternion_value, vector1d_value;
+#endif
   int value_type;
   cvm::real real_value;
   colvarvalue() : value_type(1) {}
